@@ -88,6 +88,7 @@ structure TB where
 structure Mod where
   name : String
   slot : Nat                       -- home slot of the name in the context's module table
+  ctxId : Nat := 0                 -- the context the module was registered in
   state : MState := .idle
   flags : ModFlags := {}
   hooks : Hooks := {}
@@ -109,6 +110,7 @@ structure Mod where
   deriving DecidableEq, Repr, Inhabited
 
 structure Ctx where
+  id : Nat := 0                     -- identity of the context object
   state : CState := .idle
   quit : Bool := false
   quitCode : Nat := 0
@@ -142,6 +144,8 @@ structure St where
   ctx : Option Ctx := none
   mods : List Mod := []
   srcs : List Src := []
+  nextCtx : Nat := 0
+  deadCtx : List Ctx := []         -- released context objects (their memory may still be read by a suspended loop_stop)
   holders : List Nat := []         -- auto-free payload holders: remaining references
   holderPayload : List Nat := []
   out : List Out := []
